@@ -118,6 +118,7 @@ def run(ctx):
                                     'every lookup has its own window, evaluated against the clock and the bucket at that time')
     common.stateless_methods_clause(res, cg, 'C16', 'C16.g', fac0, ['iter_keys'],
                                     'the bounds of a listing belong to that listing alone (listings are lazy and may be consumed interleaved)')
+    common.import_clauses(ctx, res, 'C10', ['C10.a'], 'C16', 'C16.h', 'R-SIBLING', 'S3 listing prefixes are the category followed by the id delimiter (and a day folder)', floor=2)
     try:
         _run_rest(ctx, res)
     except AnalysisError as ex:
